@@ -233,11 +233,14 @@ def Grid.expand (g : Grid) (p : V3) : Option Grid :=
 /-- `mergeQuads(existing, new)` -/
 def Grid.mergeQuads (g : Grid) (eid : Nat) (nq : Quad) : Option Grid := do
   let eq ← g.quads[eid]?
-  -- `clampCell`: the cell of a far edge is kept inside the grid
-  let s0 ← g.spanIn eq
   let centerDiff := nq.center.sub eq.center
   let extentsDiff := nq.extents.sub eq.extents
   let eq' : Quad := { eq with center := eq.center.add (centerDiff.mul 0.2), extents := eq.extents.add (extentsDiff.mul 0.2) }
+  -- the grid first grows to hold the footprint the plane is about to get (rounded in float32 it can come out a hair
+  -- outside): no corner is clamped into a border cell and found in another one after a later growth
+  let g ← g.expand (eq'.center.sub eq'.extents)
+  let g ← g.expand (eq'.center.add eq'.extents)
+  let s0 ← g.spanIn eq
   let s1 ← g.spanIn eq'
   let cells ← reRegister g.cells eid s0 s1
   -- ghost: the move starts from the span the plane was registered with
